@@ -29,13 +29,40 @@ LEVEL_TEXT = ('Lean theorems for every CSS parity-check matrix (pure-X / pure-Z 
               'is in the code space; zero syndrome gives zero correction for matching (minimum-weight contract, '
               'positive weights); which matrix / sector syndrome / weights / output half go together is part of '
               'the proved model, which is tied to the code on every run by boundary spies that replay the model '
-              'glue on the recorded solver answers.')
+              'glue on the recorded solver answers. XCubeMatchingDecoder: its whole pure-Python glue (sub-problems '
+              'derived from the lattice size, syndrome slicing, get_matched_pairs, connected components, projection '
+              'and loop scatters, decode_plane, minimum-weight choice, BP-OSD call) is modelled on the all-sizes '
+              'lattice models; theorems for every lattice size, syndrome and solver answer: a returned correction is '
+              'binary of length 2n; the XCube parity-check matrix is CSS; the Z half is the ldpc answer and (ldpc '
+              'contract) reproduces the X-row syndrome; on every lattice with all sides >= 2 (ordered or not) decode '
+              'raises no KeyError (every dict look-up finds its key, for every syndrome vector, solver answer and '
+              'list(set) order that keeps the elements); regression theorems for the code before 869642d '
+              '(decode_plane always given (Lx, Ly)): its loop-scatter keys all exist iff Lx <= Ly <= Lz, '
+              'kernel-evaluated KeyError (1,4,0) on 3x2x2 and wrong cube syndrome on 2x2x3, both inputs decoded '
+              'to the error itself by the repaired model. '
+              'MemoryBeliefPropagationDecoder: its integer/boolean glue is modelled with the float message passing '
+              'as a parameter; for every matrix, syndrome and messages: with max_bp_iter >= 1 the result is binary '
+              'of length 2n and is exactly the vector tested by the last executed iteration (the final reverse and '
+              'swap cancel); the loop stops at the first iteration that reaches the syndrome, so a run that reaches '
+              'it within the budget reproduces the syndrome; max_bp_iter = 0 raises UnboundLocalError.')
 LEVEL_NOTE = ('trusted (modelled, not verified): PyMatching Matching.decode (returns a minimum-weight solution of '
               'H c = s), ldpc BpOsdDecoder.decode (return value solves H c = s for s in im H), uf_support.Support '
               '(returns a solution of H c = s); each contract is tested on every run by the spy. Tested only, not '
               'proved: constructibility of every (decoder, allowed code) pair; "returns a binary length-2n vector '
-              'without raising" for the incomplete decoders (sweep-match, MBP, XCube matching), whose internals '
-              'are modelled by interface only (sweep automata: C10).')
+              'without raising" for the sweep-match decoders, whose sweepers are modelled by interface only (sweep '
+              'automata: C10). MBP: the float message passing (log_exp_bias, tanh_prod, gamma/delta updates) is not '
+              'modelled; the hard decisions enter as a parameter and are read off the vectors handed to '
+              'measure_syndrome in the correspondence. XCubeMatchingDecoder: modelled completely and compared on '
+              'every run (every sliced syndrome, solver answer, helper result, scatter vector, result or KeyError '
+              'key, all lattices in {2,3}^3 and a few with a side of 4); not proved: that the cube (Z-row) '
+              'syndrome is reproduced (correctness of the projection / loop-filling heuristic; tested by the '
+              'oracle); termination of the while walk of get_matched_pairs does not hold in general (a cycle in '
+              'a PyMatching answer makes it run forever: observed with zero matching weights, pure X noise at '
+              'rate 1/2 on 3x3x3; the model reports a hang exactly when the loop does not terminate - proved by '
+              'pigeonhole - and the thorough tier replays that input against the watchdog); the no-KeyError theorem does not exclude the non-KeyError exceptions (IndexError on a syndrome '
+              'of the wrong length, numpy shape errors on solver answers of the wrong length); list(set) order is '
+              'modelled as ascending in the driver (CPython, at most 4 small ints: sides <= 4), the theorems hold '
+              'for every order that keeps the elements.')
 TECHNIQUE = ('Lean 4 proof over a model of the decoder glue with the third-party solver as a parameter carrying '
              'an explicit contract + mock spies at the solver boundary replayed through the compiled model driver')
 TRUSTED = ['PyMatching Matching(H, spacelike_weights=w).decode(s): minimum-weight solution of H c = s (mod 2) '
@@ -43,7 +70,11 @@ TRUSTED = ['PyMatching Matching(H, spacelike_weights=w).decode(s): minimum-weigh
            'ldpc BpOsdDecoder.decode(s): returned vector solves H c = s whenever s is in the image of H; it is a '
            'function of (matrix, channel probabilities, syndrome) (contract hypothesis; tested by the spy)',
            'panqec uf_support.Support(s, H).decode(): solves H c = s on the toric code (contract hypothesis; tested)',
-           'SweepDecoder3D / RotatedSweepDecoder3D .decode return a Z-only vector of length 2n (black box here; C10)']
+           'SweepDecoder3D / RotatedSweepDecoder3D .decode return a Z-only vector of length 2n (black box here; C10)',
+           'XCubeMatchingDecoder: CPython iteration order of a set of at most four ints below 8 is ascending '
+           '(list(nodes_in_component)[0] becomes plane_proj); set.pop() order does not change the set of popped nodes; '
+           'hand-written lattice models of XCubeCode / Toric2DCode (tied to the code by C01/C02 and by the matrices '
+           'the spies record)']
 ASSUMPTIONS = ['syndromes are syndromes of Pauli errors (s = H e); parity-check entries are 0/1',
                'per-qubit marginals px+py, pz+py lie in (0, 1/2) for the zero-syndrome claim (positive weights)']
 ANCHOR_FILES = ['panqec/decoders/matching/_matching_decoder.py', 'panqec/decoders/union_find/uf_decoder.py',
@@ -51,7 +82,9 @@ ANCHOR_FILES = ['panqec/decoders/matching/_matching_decoder.py', 'panqec/decoder
                 'panqec/decoders/sweepmatch/_sweep_match_decoder.py',
                 'panqec/decoders/sweepmatch/_rotated_sweep_match_decoder.py',
                 'panqec/decoders/base/_base_decoder.py', 'panqec/config.py',
-                'panqec/error_models/_base_error_model.py']
+                'panqec/error_models/_base_error_model.py', 'panqec/decoders/xcube/_xcube_matching_decoder.py',
+                'panqec/decoders/belief_propagation/mbp_decoder.py']
+PROPERTY_MODULES = ['PanqecVerif.Properties.C05', 'PanqecVerif.Properties.C05XCube', 'PanqecVerif.Properties.C05Mbp']
 
 warnings.filterwarnings('ignore')
 
@@ -638,6 +671,16 @@ def correspondence(ctx):
                              'direction': [0.25, 0.25, 0.5], 'p': 0.125},
                          [np.zeros(m, dtype='uint8'), np.zeros(m + 1, dtype='uint8')], f'non-css:{dname}')
     streams.append(s.run())
+
+    # --- XCubeMatchingDecoder: complete model (Model/XCubeDecoder.lean), see harness/xcube_dec.py
+    from harness import xcube_dec as XC
+    rngx = ctx.np_rng(55)
+    streams.append(XC.weight12_stream(ctx, rngx))
+    streams.append(XC.random_stream(ctx, rngx))
+
+    # --- MemoryBeliefPropagationDecoder: integer/boolean glue (Model/MbpDecoder.lean), see harness/mbp_dec.py
+    from harness import mbp_dec
+    streams.append(mbp_dec.mbp_stream(ctx, ctx.np_rng(56)))
     return streams
 
 
@@ -835,9 +878,9 @@ def oracle(ctx, deep=False, broken=None):
         f['observed'] = check_case(f['input']) or f['observed']
     pairs = sorted({(c['decoder'], c['code']) for c in cases})
     return fails, {'evaluations': n_eval, 'decoder_code_pairs_constructed_and_run (tested)': len(pairs),
-                   'incomplete decoders (interface only, tested)': ['SweepMatchDecoder', 'RotatedSweepMatchDecoder',
-                                                                    'MemoryBeliefPropagationDecoder',
-                                                                    'XCubeMatchingDecoder']}
+                   'incomplete decoders (interface only, tested)': ['SweepMatchDecoder', 'RotatedSweepMatchDecoder'],
+                   'incomplete decoders (glue modelled, validity proved)': ['XCubeMatchingDecoder',
+                                                                           'MemoryBeliefPropagationDecoder']}
 
 
 def replay(ctx, payload):
